@@ -1631,10 +1631,12 @@ class QueryBuilder(Selectable, Term):  # type:ignore[misc]
             table=self._insert_table.get_sql(into_ctx),  # type:ignore[union-attr]
         )
 
-    def _from_sql(self, ctx: SqlContext) -> str:
+    def _from_sql(self, ctx: SqlContext, from_: Sequence[Selectable] | None = None) -> str:
         from_ctx = ctx.copy(subquery=True, with_alias=True)
         return " FROM {selectable}".format(
-            selectable=",".join(clause.get_sql(from_ctx) for clause in self._from)
+            selectable=",".join(
+                clause.get_sql(from_ctx) for clause in (self._from if from_ is None else from_)
+            )
         )
 
     def _force_index_sql(self, ctx: SqlContext) -> str:
